@@ -202,7 +202,7 @@ func main() {
 	for _, f := range rep.Floors {
 		if !f.OK {
 			o := &Obligation{Rule: f.Rule, Key: "floor:" + f.What, Pos: "-", Status: Violated,
-				Detail: fmt.Sprintf("rule matched %d instances of %q, fewer than the %d confirmed by hand on the reviewed tree (a rule that stops matching passes vacuously)", f.Got, f.What, f.Min)}
+				Detail: fmt.Sprintf("rule matched %d instances of %q; %d were confirmed by hand on the reviewed tree and the floor is %d (a rule that stops matching passes vacuously)", f.Got, f.What, f.Confirmed, f.Min)}
 			emit(o, "instance-floor")
 		}
 	}
